@@ -11,11 +11,6 @@ namespace Lena.C08
 
 /-! ## 1. The three notations address the same item -/
 
-/-- the dictionary notation of a key path: `{k1: {k2: … {kn: v}}}` (`{}` for the empty path) -/
-def pathEntries : List String → Val → Entries
-  | [], _ => []
-  | k :: r, v => [(k, nestPath r v)]
-
 theorem keysOfVal_nestPath : ∀ (p : List String) (v : Val),
     keysOfVal (nestPath p v) =
       match keysOfVal v with
@@ -155,14 +150,20 @@ theorem str_to_dict_errors (v : Val) (k : String) (hk : '.' ∉ k.toList) (hne :
 
 theorem containsGo_iff : ∀ (q : List String) (v : Val) (last : String),
     containsGo v (q ++ [last]) = true ↔
-      (getPath v (q ++ [last])).isSome = true ∨ ∃ a, getPath v q = some (.leaf a) ∧ pyStr a = last
+      (getPath v (q ++ [last])).isSome = true ∨
+      ∃ x, getPath v q = some x ∧ x.isDict = false ∧ pyStrVal x = some last
   | [], .dict l, last => by
-    simp [containsGo, getPath_singleton]
+    simp [containsGo, getPath_singleton, Val.isDict]
   | [], .leaf a, last => by
-    simp [containsGo]
+    simp [containsGo, Val.isDict, pyStrVal]
+  | [], .list xs, last => by
+    simp [containsGo, Val.isDict, pyStrVal]
   | k :: r, .leaf a, last => by
     cases r <;> simp [containsGo]
+  | k :: r, .list xs, last => by
+    cases r <;> simp [containsGo]
   | k :: r, .dict l, last => by
+    simp only [List.cons_append, getPath_dict_cons]
     cases h : lookup l k with
     | none => cases r <;> simp [containsGo, h, getPath_dict_cons]
     | some w =>
@@ -170,13 +171,14 @@ theorem containsGo_iff : ∀ (q : List String) (v : Val) (last : String),
       cases r <;> simpa [containsGo, h, getPath_dict_cons] using this
 
 /-- **contains_iff** — "`contains` agrees with `get_recursively`": for every dictionary and every key
-path `q ++ [last]`, `contains` is true exactly when the path names an item, or when `q` names a scalar
-whose string representation is `last` (the documented `contains(d, "fit.coordinate.x")`); a path that
+path `q ++ [last]`, `contains` is true exactly when the path names an item, or when `q` names something
+that is not a dictionary and whose string representation is `last` (the documented
+`contains(d, "fit.coordinate.x")`; for an object whose `str()` raises the answer is False); a path that
 passes through a scalar earlier gives `False`, never an exception (`contains` is total) -/
 theorem contains_iff (d : Entries) (q : List String) (last : String) (h : WFPath (q ++ [last])) :
     contains d (joinDots (q ++ [last])) = true ↔
       (getPath (.dict d) (q ++ [last])).isSome = true ∨
-      ∃ a, getPath (.dict d) q = some (.leaf a) ∧ pyStr a = last := by
+      ∃ x, getPath (.dict d) q = some x ∧ x.isDict = false ∧ pyStrVal x = some last := by
   unfold contains
   rw [if_neg (joinDots_ne_empty _ (by simp) h), splitDots_joinDots _ (by simp) (fun k hk => (h k hk).2)]
   exact containsGo_iff q (.dict d) last
@@ -341,26 +343,39 @@ theorem present_key_outcome {δ : Type} (uc : UC) (p : List String) (hp : WFPath
   rw [h] at hm
   simp [ucCall, hm]
 
-/-- do all fields of a template name an item of the context -/
-def fieldsPresent (ctx : Entries) : List Piece → Bool
-  | [] => true
-  | .lit _ :: r => fieldsPresent ctx r
-  | .field p :: r => (getPath (.dict ctx) p).isSome && fieldsPresent ctx r
+/-- every field that is present names an item whose `str()` the model transcribes: a scalar other than an
+object with a failing `__str__`, or a container without strings that `repr` would escape -/
+def StrFields (ctx : Entries) (ps : List Piece) : Prop :=
+  ∀ p, Piece.field p ∈ ps → ∀ v, getPath (.dict ctx) p = some v → (pyStrVal v).isSome = true
 
-/-- the literals interleaved with `str(item)` of the fields; an absent field gives the empty string -/
-def renderSpec (ctx : Entries) : List Piece → String
-  | [] => ""
-  | .lit s :: r => s ++ renderSpec ctx r
-  | .field p :: r =>
-    (match getPath (.dict ctx) p with
-     | some (.leaf a) => pyStr a
-     | _ => "") ++ renderSpec ctx r
+theorem strFieldsB_iff (ctx : Entries) : ∀ ps : List Piece, strFieldsB ctx ps = true ↔ StrFields ctx ps
+  | [] => by simp [strFieldsB, StrFields]
+  | .lit s :: r => by
+    rw [strFieldsB, strFieldsB_iff ctx r]
+    simp [StrFields]
+  | .field p :: r => by
+    rw [strFieldsB, Bool.and_eq_true, strFieldsB_iff ctx r]
+    simp only [StrFields, List.mem_cons, Piece.field.injEq]
+    constructor
+    · rintro ⟨h1, h2⟩ q hq v hv
+      rcases hq with rfl | hq
+      · rw [hv] at h1; exact h1
+      · exact h2 q hq v hv
+    · intro h
+      refine ⟨?_, fun q hq v hv => h q (Or.inr hq) v hv⟩
+      cases hg : getPath (.dict ctx) p with
+      | none => rfl
+      | some v => exact h p (Or.inl rfl) v hg
 
-/-- every field that is present names a scalar (the rendering of a dictionary is not modelled) -/
-def LeafFields (ctx : Entries) (ps : List Piece) : Prop :=
-  ∀ p, Piece.field p ∈ ps → ∀ v, getPath (.dict ctx) p = some v → ∃ a, v = .leaf a
+/-- in particular: every present field names a scalar of the basic types -/
+theorem strFields_of_leaf (ctx : Entries) (ps : List Piece)
+    (h : ∀ p, Piece.field p ∈ ps → ∀ v, getPath (.dict ctx) p = some v → ∃ a, v = .leaf a ∧ (pyStr a).isSome = true) :
+    StrFields ctx ps := by
+  intro p hp v hv
+  obtain ⟨a, rfl, ha⟩ := h p hp v hv
+  exact ha
 
-theorem renderPieces_spec (strict : Bool) (ctx : Entries) : ∀ (ps : List Piece), LeafFields ctx ps →
+theorem renderPieces_spec (strict : Bool) (ctx : Entries) : ∀ (ps : List Piece), StrFields ctx ps →
     renderPieces strict ctx ps =
       .ok (if strict && !fieldsPresent ctx ps then none else some (renderSpec ctx ps))
   | [], _ => by simp [renderPieces, fieldsPresent, renderSpec]
@@ -379,8 +394,8 @@ theorem renderPieces_spec (strict : Bool) (ctx : Entries) : ∀ (ps : List Piece
       · simp [ih]
       · simp
     | some w =>
-      obtain ⟨a, rfl⟩ := h p (by simp) w hg
-      simp only [strOfVal, fieldsPresent, renderSpec, hg, ih]
+      obtain ⟨t, ht⟩ := Option.isSome_iff_exists.1 (h p (by simp) w hg)
+      simp only [strOfVal, ht, fieldsPresent, renderSpec, strSpec, hg, ih, Option.getD_some]
       split <;> simp_all
 
 /-- **missing_key_matrix (formatting string)** — for a template of literals and `{{key.path}}` fields the
@@ -388,7 +403,7 @@ update value is the rendered string; a missing field is the empty string by defa
 `skip_on_missing` / `raise_on_missing` (strict templates) the value is returned unchanged /
 `LenaKeyError` is raised -/
 theorem missing_key_matrix_template (uc : UC) (ps : List Piece) (strict : Bool)
-    (hu : uc.upd = .template ps strict) (ctx : Entries) (hl : LeafFields ctx ps) :
+    (hu : uc.upd = .template ps strict) (ctx : Entries) (hl : StrFields ctx ps) :
     ucCompute uc ctx =
       if strict && !fieldsPresent ctx ps then
         (if uc.raiseOnMissing then .error .lenaKeyError else .ok .skip)
@@ -405,9 +420,6 @@ theorem simple_update_outcome (uc : UC) (ctx : Entries) :
   constructor <;> intro x h <;> simp [ucCompute, h]
 
 /-! ### construction: every ill-formed combination is rejected -/
-
-/-- number of active missing-key options -/
-def nActive (a : UCArgs) : Nat := a.default.isSome.toNat + a.raiseOnMissing.toNat + a.skipOnMissing.toNat
 
 /-- does the construction consult jinja2, and does jinja2 reject the template -/
 def jinjaRejects (a : UCArgs) (u : String) : Prop :=
@@ -454,11 +466,12 @@ example : IllFormed (UCArgs.mk (some "a") (.str "{{x}}") true (some (.leaf .none
 /-! ## 4. `DeleteContext` -/
 
 /-- the string and the list/tuple notation of a key name the same path; the empty string is the empty
-path -/
+path; a key of any other type is rejected with `LenaTypeError` (/verif/notes/C08_defect_1) -/
 theorem delete_notations (p : List String) (hp : WFPath p) :
-    dcInit (.str (joinDots p)) = p ∧ dcInit (.list p) = p := by
-  refine ⟨?_, rfl⟩
-  simp only [dcInit, strToList]
+    dcInit (.str (joinDots p)) = .ok p ∧ dcInit (.list p) = .ok p ∧ dcInit .other = .error .lenaTypeError := by
+  refine ⟨?_, rfl, rfl⟩
+  simp only [dcInit, strToListE, strToList]
+  congr 1
   by_cases hne : p = []
   · subst hne; simp [joinDots_nil]
   · rw [if_neg (joinDots_ne_empty p hne hp)]
@@ -512,6 +525,7 @@ theorem delete_absent_noop : ∀ (p : List String) (ctx : Entries), p ≠ [] →
     | some w =>
       cases w with
       | leaf a => rfl
+      | list xs => rfl
       | dict e =>
         simp only
         rw [hl] at h
@@ -528,17 +542,24 @@ example : delPath [("a", .leaf (.int 5))] ["a", "b"] = [("a", .leaf (.int 5))] :
 /-- a value that `format_update_with` does not format: anything but a string with a brace -/
 def NotTemplate (v : Val) : Prop := ∀ s, v = .leaf (.str s) → s.toList.contains '{' = false
 
+theorem notTemplateB_iff (v : Val) : notTemplateB v = true ↔ NotTemplate v := by
+  unfold NotTemplate
+  cases v with
+  | dict o => simp [notTemplateB]
+  | list xs => simp [notTemplateB]
+  | leaf a => cases a <;> simp [notTemplateB]
+
 /-- the last two statements of `format_update_with`: `update_recursively(d, str_to_dict(key, vf))` is the
 recursive assignment of `vf` to the key path -/
 theorem fuw_tail (p : List String) (hne : p ≠ []) (hp : WFPath p) (vf : Val) (d : Entries) :
-    assignFormatted (joinDots p) vf (.dict d) = .ok (.dict (ucSet true d p vf)) := by
+    assignFormatted (some (joinDots p)) vf (.dict d) = .ok (.dict (ucSet true d p vf)) := by
   obtain ⟨k0, r, rfl⟩ : ∃ k0 r, p = k0 :: r := by
     cases p with
     | nil => exact absurd rfl hne
     | cons a b => exact ⟨a, b, rfl⟩
-  unfold assignFormatted strToDict
-  rw [if_neg (joinDots_ne_empty _ hne hp)]
+  unfold assignFormatted strToDictE strToDict
   simp only
+  rw [if_neg (joinDots_ne_empty _ hne hp)]
   rw [splitDots_joinDots _ hne (fun k hk => (hp k hk).2), nestList_eq _ _ hne]
   simp only [updateRecursively, nestPath, Option.isSome_none, Bool.false_eq_true, if_false]
   rw [updRec_nestPath]
@@ -547,19 +568,22 @@ theorem formatValue_plain (v d : Val) (hv : NotTemplate v) : formatValue v d = .
   unfold formatValue
   cases v with
   | dict o => rfl
+  | list xs => rfl
   | leaf a =>
     cases a with
     | str s => simp only [hv s rfl]; rfl
     | none => rfl
     | bool b => rfl
     | int i => rfl
+    | float r => rfl
+    | obj o => rfl
 
 /-- **format_update_with (plain value)** — `format_update_with(key, value, d)` with a value that is not a
 template is the recursive assignment of `value` to the key path; hence (`getPath_ucSet_same`,
 `getPath_ucSet_frame`) afterwards the path names `value` (merged, for two dictionaries) and every item
 not prefix-comparable with the path is unchanged -/
 theorem fuw_plain (p : List String) (hne : p ≠ []) (hp : WFPath p) (v : Val) (hv : NotTemplate v) (d : Entries) :
-    formatUpdateWith (joinDots p) v (.dict d) = .ok (.dict (ucSet true d p v)) := by
+    formatUpdateWith (some (joinDots p)) v (.dict d) = .ok (.dict (ucSet true d p v)) := by
   unfold formatUpdateWith
   rw [formatValue_plain v _ hv]
   exact fuw_tail p hne hp v d
@@ -570,11 +594,11 @@ assigned -/
 theorem fuw_template (p : List String) (hne : p ≠ []) (hp : WFPath p) (s : String)
     (hs : s.toList.contains '{' = true) (d : Entries) :
     (∀ fc r, formatInit (some s) = .ok fc → formatCall fc (.dict d) = .ok r →
-      formatUpdateWith (joinDots p) (.leaf (.str s)) (.dict d) = .ok (.dict (ucSet true d p (.leaf (.str r))))) ∧
+      formatUpdateWith (some (joinDots p)) (.leaf (.str s)) (.dict d) = .ok (.dict (ucSet true d p (.leaf (.str r))))) ∧
     (∀ fc e, formatInit (some s) = .ok fc → formatCall fc (.dict d) = .error e →
-      formatUpdateWith (joinDots p) (.leaf (.str s)) (.dict d) = .error e) ∧
+      formatUpdateWith (some (joinDots p)) (.leaf (.str s)) (.dict d) = .error e) ∧
     (∀ e, formatInit (some s) = .error e →
-      formatUpdateWith (joinDots p) (.leaf (.str s)) (.dict d) = .error e) := by
+      formatUpdateWith (some (joinDots p)) (.leaf (.str s)) (.dict d) = .error e) := by
   refine ⟨?_, ?_, ?_⟩
   · intro fc r hi hr
     unfold formatUpdateWith formatValue
@@ -587,12 +611,17 @@ theorem fuw_template (p : List String) (hne : p ≠ []) (hp : WFPath p) (s : Str
     unfold formatUpdateWith formatValue
     simp only [hs, hi, if_true]
 
-/-- the empty key is rejected with `LenaValueError`, something that is not a dictionary with
-`LenaTypeError` -/
+/-- "a malformed argument [is handled] by LenaTypeError/LenaValueError": the empty key is rejected with
+`LenaValueError`, a key that is not a string with `LenaTypeError` (/verif/notes/C08_defect_1), something
+that is not a dictionary with `LenaTypeError` -/
 theorem fuw_errors (v : Val) (hv : NotTemplate v) (d : Val) (p : List String) (hne : p ≠ []) (hp : WFPath p) (a : Leaf) :
-    formatUpdateWith "" v d = .error .lenaValueError ∧
-    formatUpdateWith (joinDots p) v (.leaf a) = .error .lenaTypeError := by
-  constructor
+    formatUpdateWith (some "") v d = .error .lenaValueError ∧
+    formatUpdateWith none v d = .error .lenaTypeError ∧
+    formatUpdateWith (some (joinDots p)) v (.leaf a) = .error .lenaTypeError := by
+  refine ⟨?_, ?_, ?_⟩
+  · unfold formatUpdateWith
+    rw [formatValue_plain v _ hv]
+    rfl
   · unfold formatUpdateWith
     rw [formatValue_plain v _ hv]
     rfl
@@ -603,21 +632,13 @@ theorem fuw_errors (v : Val) (hv : NotTemplate v) (d : Val) (p : List String) (h
       | nil => exact absurd rfl hne
       | cons a b => exact ⟨a, b, rfl⟩
     simp only
-    unfold assignFormatted strToDict
-    rw [if_neg (joinDots_ne_empty _ hne hp)]
+    unfold assignFormatted strToDictE strToDict
     simp only
+    rw [if_neg (joinDots_ne_empty _ hne hp)]
     rw [splitDots_joinDots _ hne (fun k hk => (hp k hk).2), nestList_eq _ _ hne]
     simp [updateRecursively, nestPath]
 
 /-! ## 6. `format_context` renders exactly the addressed items -/
-
-/-- a piece of a template as characters: a field is written `{{dotted.name}}` -/
-def Piece.toTP : Piece → TP
-  | .lit s => .lit s.toList
-  | .field p => .fld (joinDots p).toList
-
-/-- the template string of a list of pieces -/
-def templateString (ps : List Piece) : String := String.ofList (render0 (ps.map Piece.toTP))
 
 /-- "template strings built from literals and fields": a literal has no brace, a field is a key path
 whose keys have none of the characters `{ } ! :` -/
@@ -655,8 +676,8 @@ def fieldStrs (ctx : Entries) : List Piece → List String
   | .lit _ :: r => fieldStrs ctx r
   | .field p :: r =>
     (match getPath (.dict ctx) p with
-     | some (.leaf a) => pyStr a
-     | _ => "") :: fieldStrs ctx r
+     | some v => strSpec v
+     | none => "") :: fieldStrs ctx r
 
 /-- the items the fields name -/
 def fieldVals (ctx : Entries) : List Piece → List Val
@@ -690,7 +711,7 @@ theorem lookupArgs_fields (ctx : Entries) : ∀ (ps : List Piece), (∀ p ∈ ps
         simp only [if_true] at ih
         simp [ih, fieldsPresent, hfp, hg, fieldVals]
 
-theorem strOfVals_fields (ctx : Entries) : ∀ (ps : List Piece), fieldsPresent ctx ps = true → LeafFields ctx ps →
+theorem strOfVals_fields (ctx : Entries) : ∀ (ps : List Piece), fieldsPresent ctx ps = true → StrFields ctx ps →
     strOfVals (fieldVals ctx ps) = .ok (fieldStrs ctx ps)
   | [], _, _ => rfl
   | .lit s :: r, hp, hl => by
@@ -700,8 +721,8 @@ theorem strOfVals_fields (ctx : Entries) : ∀ (ps : List Piece), fieldsPresent 
     simp only [fieldsPresent, Bool.and_eq_true] at hp
     have ih := strOfVals_fields ctx r hp.2 (fun p hp => hl p (by simp [hp]))
     obtain ⟨w, hw⟩ := Option.isSome_iff_exists.1 hp.1
-    obtain ⟨a, rfl⟩ := hl q (by simp) w hw
-    simp [fieldVals, fieldStrs, hw, strOfVals, strOfVal, ih]
+    obtain ⟨t, ht⟩ := Option.isSome_iff_exists.1 (hl q (by simp) w hw)
+    simp [fieldVals, fieldStrs, hw, strOfVals, strOfVal, strSpec, ht, ih]
 
 theorem pyFormat_fields (ctx : Entries) : ∀ (ps : List Piece), (∀ p ∈ ps, p.WF) →
     pyFormat (fstrOf (ps.map Piece.toTP)) (fieldStrs ctx ps) = .ok (renderSpec ctx ps).toList
@@ -719,13 +740,13 @@ theorem pyFormat_fields (ctx : Entries) : ∀ (ps : List Piece), (∀ p ∈ ps, 
 one is absent": for every template built from brace-free literals and any number of `{{key.path}}`
 fields the construction succeeds, and for every context the call raises `LenaKeyError` if (and only if:
 the other outcome is a value) some field names no item, and otherwise returns the literals
-interleaved with `str(item)` of the fields (for items that are scalars; `str` of a dictionary is not
-modelled) -/
+interleaved with `str(item)` of the fields (`StrFields`: for items whose `str()` the model transcribes —
+scalars, and dictionaries and lists rendered by `repr` in insertion order) -/
 theorem format_exact (ps : List Piece) (hw : ∀ p ∈ ps, p.WF) :
     ∃ f, formatInit (some (templateString ps)) = .ok f ∧
       ∀ ctx : Entries,
         (fieldsPresent ctx ps = false → formatCall f (.dict ctx) = .error .lenaKeyError) ∧
-        (fieldsPresent ctx ps = true → LeafFields ctx ps → formatCall f (.dict ctx) = .ok (renderSpec ctx ps)) := by
+        (fieldsPresent ctx ps = true → StrFields ctx ps → formatCall f (.dict ctx) = .ok (renderSpec ctx ps)) := by
   have hok : ∀ p ∈ ps.map Piece.toTP, p.Ok := by
     intro p hp
     simp only [List.mem_map] at hp
@@ -831,6 +852,12 @@ theorem dictEq_dict_iff (ea eb : Entries) : DictEq (.dict ea) (.dict eb) ↔
   · intro h; cases h with | dict _ _ h1 h2 => exact ⟨h1, h2⟩
   · intro h; exact .dict ea eb h.1 h.2
 
+theorem dictEq_list_iff (xa xb : List Val) : DictEq (.list xa) (.list xb) ↔
+    xa.length = xb.length ∧ (∀ (i : Nat) v w, xa[i]? = some v → xb[i]? = some w → DictEq v w) := by
+  constructor
+  · intro h; cases h with | list _ _ h1 h2 => exact ⟨h1, h2⟩
+  · intro h; exact .list xa xb h.1 h.2
+
 mutual
 /-- `DictEq` is Python's (type-strict) `==`: the executable comparison `pyEq`, which the correspondence
 check compares with the equality of the real Python values, decides it -/
@@ -842,8 +869,21 @@ theorem pyEq_iff : ∀ (a b : Val), a.WF → (pyEq a b = true ↔ DictEq a b)
     · intro h; cases h; rfl
   | .leaf x, .dict eb, _ => by
     simp only [pyEq, Bool.false_eq_true, false_iff]; intro h; cases h
+  | .leaf x, .list xb, _ => by
+    simp only [pyEq, Bool.false_eq_true, false_iff]; intro h; cases h
   | .dict ea, .leaf y, _ => by
     simp only [pyEq, Bool.false_eq_true, false_iff]; intro h; cases h
+  | .dict ea, .list xb, _ => by
+    simp only [pyEq, Bool.false_eq_true, false_iff]; intro h; cases h
+  | .list xa, .leaf y, _ => by
+    simp only [pyEq, Bool.false_eq_true, false_iff]; intro h; cases h
+  | .list xa, .dict eb, _ => by
+    simp only [pyEq, Bool.false_eq_true, false_iff]; intro h; cases h
+  | .list xa, .list xb, wa => by
+    simp only [Val.WF] at wa
+    rw [dictEq_list_iff]
+    simp only [pyEq]
+    exact listEq_iff xa xb wa
   | .dict ea, .dict eb, wa => by
     simp only [Val.WF] at wa
     rw [dictEq_dict_iff]
@@ -910,6 +950,27 @@ theorem subEq_iff : ∀ (ea eb : Entries), EntriesWF ea →
         by_cases hk : k0 = k
         · subst hk; rw [wa.1] at hl; simp at hl
         · simp [hk, hl]
+theorem listEq_iff : ∀ (xa xb : List Val), ListWF xa →
+    (listEq xa xb = true ↔
+      xa.length = xb.length ∧ ∀ (i : Nat) v w, xa[i]? = some v → xb[i]? = some w → DictEq v w)
+  | [], [], _ => by simp [listEq]
+  | [], y :: r', _ => by simp [listEq]
+  | x :: r, [], _ => by simp [listEq]
+  | x :: r, y :: r', wa => by
+    simp only [ListWF] at wa
+    simp only [listEq, Bool.and_eq_true, List.length_cons, Nat.add_right_cancel_iff]
+    rw [pyEq_iff x y wa.1, listEq_iff r r' wa.2]
+    constructor
+    · rintro ⟨h0, hlen, hr⟩
+      refine ⟨hlen, ?_⟩
+      intro i v w h1 h2
+      cases i with
+      | zero => simp at h1 h2; subst h1; subst h2; exact h0
+      | succ i => simp at h1 h2; exact hr i v w h1 h2
+    · rintro ⟨hlen, h⟩
+      refine ⟨h 0 x y (by simp) (by simp), hlen, ?_⟩
+      intro i v w h1 h2
+      exact h (i + 1) v w (by simpa using h1) (by simpa using h2)
 end
 
 /-- in particular: any reordering of the items of a dictionary gives the same string -/
@@ -974,6 +1035,7 @@ theorem updRec_wf : ∀ (o d : Entries), EntriesWF d → EntriesWF o → Entries
     exact updItem_wf v (lookup d k) (fun c hc => lookup_wf_val d k c hd hc) ho.2.1
 theorem updItem_wf : ∀ (v : Val) (cur : Option Val), (∀ c, cur = some c → c.WF) → v.WF → (updItem cur v).WF
   | .leaf a, cur, _, _ => by simp [updItem, Val.WF]
+  | .list xs, cur, _, hv => by simpa [updItem] using hv
   | .dict o, cur, hc, hv => by
     simp only [Val.WF] at hv
     cases cur with
@@ -981,6 +1043,9 @@ theorem updItem_wf : ∀ (v : Val) (cur : Option Val), (∀ c, cur = some c → 
     | some c =>
       cases c with
       | leaf a =>
+        simp only [updItem, Val.WF]
+        exact updRec_wf o [] trivial hv
+      | list xs =>
         simp only [updItem, Val.WF]
         exact updRec_wf o [] trivial hv
       | dict dk =>
@@ -997,6 +1062,7 @@ theorem subDict_wf (d : Entries) (k : String) (hd : EntriesWF d) : EntriesWF (su
   | some w =>
     cases w with
     | leaf a => trivial
+    | list xs => trivial
     | dict e => simpa [Val.WF] using lookup_wf_val d k _ hd h
 
 theorem ucSet_wf (rec : Bool) (u : Val) (hu : u.WF) : ∀ (p : List String) (d : Entries), EntriesWF d →
@@ -1023,6 +1089,7 @@ theorem delPath_wf : ∀ (p : List String) (d : Entries), EntriesWF d → Entrie
     | some w =>
       cases w with
       | leaf a => exact hd
+      | list xs => exact hd
       | dict e =>
         simp only
         apply setKey_wf d k _ hd
@@ -1033,6 +1100,7 @@ theorem delPath_wf : ∀ (p : List String) (d : Entries), EntriesWF d → Entrie
 theorem getPath_wf : ∀ (p : List String) (v w : Val), v.WF → getPath v p = some w → w.WF
   | [], v, w, hv, h => by simp at h; subst h; exact hv
   | k :: p, .leaf a, w, _, h => by simp at h
+  | k :: p, .list xs, w, _, h => by simp at h
   | k :: p, .dict es, w, hv, h => by
     rw [getPath_dict_cons] at h
     cases hl : lookup es k with
